@@ -1243,6 +1243,18 @@ def r1613(prog, chk):
             reads_dep = lambda x: any(isinstance(n, ast.Attribute) and n.attr == dep and T(n.value) == table and isinstance(n.ctx, ast.Load) for n in ast.walk(x))
             ok = bool(expl) and len(fall) >= 1 and all(reads_dep(x) for x, fs in fall) and T(dsts[0][1].value) == table \
                 and cfg.dominates(cfg.node_of(dsts[0][0]), cfg.node_of(s_))
+            if ok and fld.endswith("XOffset"):
+                # the slant helper takes (y offset, italic angle) in that order
+                for x, fs in fall:
+                    okx = isinstance(x, ast.Call) and len(x.args) == 2 and reads_dep(x.args[0]) and not reads_dep(x.args[1])
+                    if okx:
+                        def is_angle(y, ff):
+                            if isinstance(y, ast.Call) and isinstance(y.func, ast.Name) and y.func.id in ("float", "int") and len(y.args) == 1:
+                                y = y.args[0]
+                            return isinstance(y, ast.Call) and prog.is_call_to(ff, y, GETATTR) and len(y.args) == 2 and A.is_const(y.args[1], "italicAngle")
+                        oka, _ = every_origin(prog, f, x.args[1], is_angle, allow_const=False)
+                        okx = oka
+                    ok = ok and okx
             detail = "; ".join(T(x, 50) for x, fs in fall)
         else:
             # not written field by field: at least the resolved sibling has to be read back somewhere
@@ -1257,6 +1269,8 @@ def r1613(prog, chk):
 
 
 MUTANTS = [
+    M("slant helper called with its arguments swapped (mutation scan 4, k=143)", "ufo2ft/outlineCompiler.py", "BaseOutlineCompiler.setupTable_OS2",
+      "adjustOffset(os2.ySuperscriptYOffset, italicAngle)", "adjustOffset(italicAngle, os2.ySuperscriptYOffset)", rule="R16.13"),
     M("blue zones sorted in place inside a helper of the BlueScale fallback (seeded C07j)", "ufo2ft/fontInfoData.py", "postscriptBlueScaleFallback",
       "blues = getAttrWithFallback(info, 'postscriptBlueValues')", "blues = getAttrWithFallback(info, 'postscriptBlueValues')\n_orderZones(blues)", rule="R16.7",
       also=(("ufo2ft/fontInfoData.py", "", "<append-module>", "def _orderZones(zones):\n    if zones:\n        zones.sort()\n"),)),
